@@ -295,6 +295,15 @@ def check(case: dict[str, Any], rec: Any) -> None:
     last_dur = 1.0
     exp_blocks: list[tuple[float, float]] = []
     unb = sorted(out["unblocks"])
+    # the block may only be reset by a succeeded command or by the recovery from NOT_WORKING (the reference below
+    # follows the observed resets, so they have to be justified first)
+    ok_times = [te for te, k, v in events if k == "sp" and v == "ok"]
+    recoveries = [b[0] for a, b in zip([(-1.0, "NOT_WORKING")] + statuses, statuses) if a[1] == "NOT_WORKING" and b[1] == "WORKING"]
+    for u in unb:
+        if not any(abs(u - x) <= 0.002 for x in ok_times) and not any(abs(u - x) <= 0.002 for x in recoveries):
+            rec.violation("blocking-reset-without-a-succeeded-command-or-a-recovery",
+                          {**w0, "reset_at": u, "succeeded_commands_at": ok_times[:10], "recoveries_at": recoveries[:10]})
+            break
     timeline = sorted([(te, "sp", v) for te, k, v in events if k == "sp"] + [(t, "unblock", None) for t in unb])
     n_consec = 0
     nontrivial_fail = False
@@ -447,8 +456,15 @@ async def _drive_pool(case: dict[str, Any], out: dict[str, Any]) -> None:
         out["checkpoints"].append({"phase": ph, "last_emitted": snap,
                                    "current": {"working": sorted(cur.working), "uncertain": sorted(cur.uncertain)},
                                    "get_working": sorted(pool.get_working_components(asked))})
-        # let blocks expire and clear them with a success so that the next phase starts clean
-        await asyncio.sleep(MAXBLOCK + 1.0)
+        # let blocks expire and clear them with a success so that the next phase starts clean; every battery keeps
+        # streaming healthy data meanwhile, so that a scripted silence of the next phase is the only silence
+        t = 0.0
+        while t < MAXBLOCK + 1.0:
+            for b in range(nb):
+                await api.feed(10 + b, dataclasses.replace(bmsg(None, 0.0), component_id=10 + b))
+                await api.feed(100 + b, dataclasses.replace(imsg(None, 0.0), component_id=100 + b))
+            await asyncio.sleep(0.5)
+            t += 0.5
         await pool.update_status({10 + b for b in range(nb)}, set())
         await asyncio.sleep(0.05)
     await pool.stop()
